@@ -233,6 +233,41 @@ func (C06) execute(p *Plan, r *simkit.Run) *simkit.Violation {
 		t.start(fs)
 		tasks = append(tasks, t)
 	}
+	// the endpoint battery: a sample of the real read endpoints, evaluated around every entry like the
+	// store-level battery, and a few of them parked
+	var eps []EPQuery
+	var prevEP []epResult
+	var epTasks []*epTask
+	evalEP := func() []epResult {
+		shell := c.Shell
+		if err := consul.VerifServeReads(shell); err != nil {
+			panic(err)
+		}
+		fs.shells[shell] = true
+		out := make([]epResult, len(eps))
+		for i, q := range eps {
+			out[i] = q.Call(shell, 0)
+		}
+		return out
+	}
+	if p.Cfg.Extra["endpoints"] != "off" {
+		all := EPBattery(DefaultUniverse(), keys, sessions, BatteryExtra{Names: []string{"web-sidecar-proxy", "igw", "tgw", "mgw"}})
+		pickE := simkit.NewRNG(uint64(len(p.Steps))*104729 + uint64(len(all)))
+		for _, i := range pickE.Perm(len(all)) {
+			if len(eps) < 48 {
+				eps = append(eps, all[i])
+			}
+		}
+		prevEP = evalEP()
+		for i := 0; i < 6 && i < len(eps); i++ {
+			q := eps[pickE.IntN(len(eps))]
+			if prevEP0 := q.Call(c.Shell, 0); prevEP0.Err == "" {
+				t := &epTask{q: q, min: prevEP0.Index, received: prevEP0.NoIdx}
+				t.start(fs)
+				epTasks = append(epTasks, t)
+			}
+		}
+	}
 	defer func() {
 		close(fs.shutdown)
 		for sh := range fs.shells {
@@ -307,10 +342,55 @@ func (C06) execute(p *Plan, r *simkit.Run) *simkit.Violation {
 				}
 			}
 		}
+		if len(eps) > 0 {
+			nowEP := evalEP()
+			if store == prevStore {
+				for i, q := range eps {
+					b, a := prevEP[i], nowEP[i]
+					if a.Err != "" || b.Err != "" {
+						continue
+					}
+					if a.Index == 0 {
+						viol = mk("index-zero", "reported-index-never-zero", opOfDesc(e.Desc)+":"+q.Group, fmt.Sprintf("endpoint %s reported index 0 after entry %d (%s)", q.Name, e.Index, e.Desc))
+						return
+					}
+					changed := b.Result != a.Result
+					if changed {
+						r.Hit("probe.endpoint-result-changed")
+					}
+					if a.Index <= b.Index && (changed || a.Index < b.Index) {
+						switch {
+						case gwChanged && likeConnectHealth(q.Like):
+							r.Hit("known-finding.C06-connect-health-index-slides-back")
+							continue
+						case changed && q.Like == "KVSList(" && a.Empty && strings.Contains(e.Desc, "kv.delete-tree"):
+							r.Hit("known-finding.C06-kv-list-index-after-parent-delete-tree")
+							continue
+						case changed && q.Like == "IntentionMatch(src=" && strings.Contains(e.Desc, "register"):
+							r.Hit("known-finding.C06-intention-source-match-unwatched-destination-kind")
+							continue
+						}
+					}
+					if changed && a.Index <= b.Index {
+						viol = mk("missed-change", "changed-result-has-larger-index", opOfDesc(e.Desc)+":ep:"+q.Group,
+							fmt.Sprintf("entry %d (%s) changed the reply of endpoint %s but its index went %d -> %d\n  before: %s\n  after:  %s", e.Index, e.Desc, q.Name, b.Index, a.Index,
+								first(diffAt(b.Result, a.Result, 700)), second(diffAt(b.Result, a.Result, 700))))
+						return
+					}
+					if a.Index < b.Index && !isReap {
+						viol = mk("index-regressed", "index-never-decreases", opOfDesc(e.Desc)+":ep:"+q.Group,
+							fmt.Sprintf("entry %d (%s): index of endpoint %s went %d -> %d", e.Index, e.Desc, q.Name, b.Index, a.Index))
+						return
+					}
+				}
+			}
+			prevEP = nowEP
+		}
 		prev, prevStore = now, store
 	}
 	c.OnCommit = func(e Entry, _ any) { afterCommit(e) }
 
+	foStep := 0
 	checkTasks := func(what string) {
 		synctest.Wait()
 		for _, t := range tasks {
@@ -343,6 +423,53 @@ func (C06) execute(p *Plan, r *simkit.Run) *simkit.Violation {
 				r.Hit("probe.blocking-query-still-parked")
 			}
 		}
+		for _, t := range epTasks {
+			select {
+			case <-t.done:
+				r.Hit("probe.endpoint-query-returned")
+				if t.out.Err == "" {
+					if t.out.Index == 0 {
+						viol = mk("index-zero", "reported-index-never-zero", what, fmt.Sprintf("blocking endpoint call %s returned index 0", t.q.Name))
+						return
+					}
+					// what a blocked caller is handed at index I is what an unblocked caller reads at index I (an
+					// endpoint evaluates its query function several times into the same reply while it waits)
+					if cur := t.q.Call(c.Shell, 0); cur.Err == "" && cur.Index == t.out.Index && cur.NoIdx != t.out.NoIdx && c.Failovers == foStep {
+						viol = mk("stale-reply", "blocked-reply-equals-unblocked-reply-at-the-same-index", what+":ep:"+t.q.Group,
+							fmt.Sprintf("after %s: the blocked call %s returned at index %d with a reply that differs from the unblocked reply at that index\n  blocked:   %s\n  unblocked: %s", what, t.q.Name, t.out.Index,
+								first(diffAt(t.out.NoIdx, cur.NoIdx, 900)), second(diffAt(t.out.NoIdx, cur.NoIdx, 900))))
+						return
+					}
+					t.received = t.out.NoIdx
+					if t.out.Index > t.min {
+						t.min = t.out.Index
+					}
+				}
+				t.start(fs)
+			default:
+				// still parked: what the endpoint would answer now is what the caller already has
+				cur := t.q.Call(c.Shell, 0)
+				if cur.Err == "" && cur.NoIdx != t.received && t.q.Like == "IntentionMatch(src=" && strings.Contains(what, "register") {
+					// known finding C06-intention-source-match-unwatched-destination-kind (see afterCommit)
+					r.Hit("known-finding.C06-intention-source-match-unwatched-destination-kind")
+					t.received = cur.NoIdx
+					continue
+				}
+				if cur.Err == "" && cur.NoIdx != t.received && t.q.Like == "KVSList(" && cur.Empty && cur.Index <= t.min && strings.Contains(what, "kv.delete-tree") {
+					// known finding C06-kv-list-index-after-parent-delete-tree (see afterCommit)
+					r.Hit("known-finding.C06-kv-list-index-after-parent-delete-tree")
+					t.received = cur.NoIdx
+					continue
+				}
+				if cur.Err == "" && cur.NoIdx != t.received {
+					viol = mk("not-woken", "parked-query-returns-when-result-changes", what+":ep:"+t.q.Group,
+						fmt.Sprintf("after %s: endpoint call %s is still parked on index %d although its reply changed\n  received: %s\n  current:  %s (index %d)", what, t.q.Name, t.min,
+							first(diffAt(t.received, cur.NoIdx, 600)), second(diffAt(t.received, cur.NoIdx, 600)), cur.Index))
+					return
+				}
+				r.Hit("probe.endpoint-query-still-parked")
+			}
+		}
 	}
 
 	for i, s := range p.Steps {
@@ -351,6 +478,7 @@ func (C06) execute(p *Plan, r *simkit.Run) *simkit.Violation {
 		r.Steps++
 		r.Sig(s.Op)
 		fo := c.Failovers
+		foStep = fo
 		c.Do(s)
 		if c.Fatal != nil {
 			return mk("panic", "apply-does-not-panic", s.Op, c.Fatal.Error())
@@ -360,6 +488,9 @@ func (C06) execute(p *Plan, r *simkit.Run) *simkit.Violation {
 		}
 		if c.Failovers != fo {
 			prev, prevStore = evalAll(battery, c.L.State()), c.L.State()
+			if len(eps) > 0 {
+				prevEP = evalEP()
+			}
 			r.Hit("probe.store-replaced")
 		}
 		checkTasks(s.Short())
@@ -370,3 +501,6 @@ func (C06) execute(p *Plan, r *simkit.Run) *simkit.Violation {
 	r.Nontrivial = len(c.Log) >= 3
 	return nil
 }
+
+func first(a, _ string) string  { return a }
+func second(_, b string) string { return b }
